@@ -45,14 +45,14 @@ OnlyLiveCopies(S, t) ==
 StepNew ==
   /\ vals' = {} /\ now' = 0
   /\ shift' = Ev.j
-  /\ pw' = IF Ev.out = "ok" /\ Ev.built = 1 THEN Width(Ev.len) ELSE 1
+  /\ pw' = IF Ev.out = "ok" /\ Ev.built = 1 /\ P(Ev.len) >= 5 THEN Width(Ev.len) ELSE 1
   /\ IF Ev.out # "ok"
      THEN /\ len' = 0
           /\ V("OUTCOME", FALSE, <<"construction ended with", Ev.out>>)
           /\ V("LAYOUT", Ev.j = 0 /\ Ev.len <= 16, <<"no tree was constructed for a domain of", Ev.len, "points (shifted by", Ev.j, "): construction ended with", Ev.out>>)
      ELSE /\ len' = IF Ev.built = 1 THEN Ev.len ELSE 0
           /\ V("LAYOUT", (Ev.built = 1) <=> (IF Ev.j = 0 THEN Ev.len > 16 ELSE TRUE), <<"built", Ev.built, "for", Ev.len, "points">>)
-          /\ (Ev.built = 1 => V("LAYOUT", Ev.count = Count(Ev.len), <<"chunks", Ev.count, "expected", Count(Ev.len), "len", Ev.len>>))
+          /\ (Ev.built = 1 /\ P(Ev.len) >= 5 => V("LAYOUT", Ev.count = Count(Ev.len), <<"chunks", Ev.count, "expected", Count(Ev.len), "len", Ev.len>>))
 
 Same == vals' = vals /\ now' = now
 
